@@ -41,7 +41,8 @@ EXPLANATION = (
     "constructions pass status/meta/body through. (R4/R5) both listeners construct the same "
     "protocol; the raw transport is written only with bio_read output. "
     "(R2, abort) transport.abort() - which discards queued output - is not reachable in the manual TLS classes once the handshake may be complete, nor in the inner protocol after a response write. "
-    "(R6) listeners do not shorten asyncio's TLS shutdown grace period."
+    "(R6) listeners do not shorten asyncio's TLS shutdown grace period. "
+    "(R7) = C13.E3 client cap on body bytes. (R8) = C07.S4 pump: every decrypted record is handed over at once."
 )
 
 PARTIAL_WRITE = {
